@@ -72,7 +72,8 @@ def fault_cases(rng, nmax, kmax, frac=1.0, mask=0b10111):
                     ops.append(f"sew 1 {l} {r}")
                     if l != r:
                         ops.append(f"sew 2 {l} {r}")
-                ops += [f"unsew 1 {l}", f"unsew 2 {l}", f"funsew 2 {l}", f"fsew 1 {l} {in_use[(l) % n]}"]
+                        ops.append(f"fsew 2 {l} {r}")
+                ops += [f"unsew 1 {l}", f"unsew 2 {l}", f"funsew 2 {l}", f"funsew 1 {l}", f"fsew 1 {l} {in_use[(l) % n]}"]
             for op in ops:
                 for k in range(0, kmax + 1):
                     cid += 1
